@@ -86,11 +86,17 @@ def build_config(entrypoint, include_none=False):
 
     config = {}
     configurable = entrypoint_configurables[entrypoint]
-    for c in reversed(configurable.mro()):
-        if issubclass(c, NbdimeConfigurable):
-            recursive_update(config, config_instance(c).configured_traits(c), include_none)
-            if (c.__name__ in disk_config):
-                recursive_update(config, disk_config[c.__name__], include_none)
+    sections = [c for c in reversed(configurable.mro())
+                if issubclass(c, NbdimeConfigurable)]
+    # First the built-in defaults (most specific class last), then the
+    # values from config files, so that a default re-declared by a specific
+    # class (e.g. Server.port) does not hide a value configured in a more
+    # general section (e.g. Web)
+    for c in sections:
+        recursive_update(config, config_instance(c).configured_traits(c), include_none)
+    for c in sections:
+        if (c.__name__ in disk_config):
+            recursive_update(config, disk_config[c.__name__], include_none)
 
     return config
 
